@@ -3,6 +3,7 @@ package jph
 import (
 	"encoding/json"
 	"fmt"
+	"math"
 	"sort"
 	"strconv"
 	"strings"
@@ -31,6 +32,14 @@ import (
 //     document with other root values / other `a` fields, or an independent one), in a
 //     random order: every call must select what a fresh Retrieve selects on that document
 //     (nothing of an earlier document may survive in the parsed function).
+//
+// Mode "edge" (1 case in 20, b10_helpers.go): numbers at the edge of float64 / int64 — 1e999, -1e400 (±Inf under
+// UseNumber, not decodable as float64), 2^63-1, 2^63, 10^19-1, -2^63-1, 1e19, 0.1e20, 2^64, 2^53+1, -0, 1E+2, 1e-400,
+// the largest float64 and its neighbours — as `a` fields, bare members and root values, compared with
+// all six operators against in-range literals of the same families and against other paths. Oracle:
+// a number takes part in a comparison as the float64 nearest to its text (ParseFloat; ±Inf beyond the
+// range); == / != of two paths under UseNumber is decided only for equal spellings or different values.
+// Both decodings (when the float64 one exists) must agree, and one parsed function serves both.
 //
 // Mode "general" (1 case in 5): a generated document and a function-free path with at least
 // one filter (GenCase); retrieval from the float64 and from the json.Number decoding must
@@ -482,8 +491,9 @@ func c10NumOf(v interface{}) (float64, bool) {
 	case float64:
 		return t, true
 	case json.Number:
-		f, err := t.Float64()
-		return f, err == nil
+		// a number beyond the float64 range is still a number: ±Inf, as Number.Float64 gives next to its range error
+		f, err := strconv.ParseFloat(string(t), 64)
+		return f, err == nil || math.IsInf(f, 0)
 	}
 	return 0, false
 }
@@ -988,6 +998,9 @@ func (c10) Exec(seed int64, i int, tier string) Record {
 	r := CaseRng(seed, "C10", i)
 	if i%5 == 4 {
 		return c10General(r)
+	}
+	if i%20 == 7 {
+		return b10EdgeRun(r, true)
 	}
 	return c10Typed(r, i)
 }
